@@ -257,12 +257,151 @@ def exhaustive_conv_geometries(rng, limit):
     return cases
 
 
+# ------------------------------------------------------------------ sequences: forward / re-parameterise / forward ...
+def f32(v):
+    import struct
+    return struct.unpack("f", struct.pack("f", v))[0]
+
+
+def seq_dims(c):
+    """(number of weights, number of biases, inputs per batch element)"""
+    k = c["conn"]
+    if k == "dense":
+        return prod(c["inshape"]) * prod(c["outshape"]), prod(c["outshape"]), prod(c["inshape"])
+    if k == "direct":
+        return prod(c["shape"]), prod(c["shape"]), prod(c["shape"])
+    if k == "lateral":
+        return prod(c["shape"]) ** 2, prod(c["shape"]), prod(c["shape"])
+    return c["F"] * c["C"] * c["k"][0] * c["k"][1], c["F"], c["C"] * c["H"] * c["W"]
+
+
+def gen_seq(rng, conn):
+    """a connection that is stepped, re-parameterised through one of the public routes, stepped again, ... (3-6 rounds)"""
+    syn = rsyn(rng)
+    B = rng.randint(1, 2)
+    bias = rng.random() < 0.7
+    c = {"kind": "seq", "conn": conn, "B": B, "bias": bias, "delay": rng.choice([None, 0.0, 0.0]), "syn": syn}
+    if conn == "dense":
+        c["inshape"], c["outshape"] = rshape(rng, 6), rshape(rng, 4)
+        c["xshape"] = [B] + c["inshape"]
+    elif conn == "direct":
+        c["shape"] = rshape(rng, 8)
+        c["xshape"] = [B] + c["shape"]
+    elif conn == "lateral":
+        c["shape"] = rng.choice([[2], [3], [2, 2], [1, 3]])
+        c["xshape"] = [B] + c["shape"]
+    else:
+        g = gen_conv(rng, False)
+        while g["C"] * g["H"] * g["W"] > 60:
+            g = gen_conv(rng, False)
+        for key in ("H", "W", "C", "F", "k", "s", "p", "d"):
+            c[key] = g[key]
+        c["xshape"] = [B, c["C"], c["H"], c["W"]]
+    nw, nb, nx = seq_dims(c)
+    c["Wf"] = rvals(rng, nw)
+    c["b"] = rvals(rng, nb) if bias else None
+    routes = ["set", "set", "upd", "upd", "inplace_add", "inplace_copy", "data_index", "load", "to", "none"]
+    rounds = [{"op": ["none"], "x": rx(rng, syn, B * nx)}]
+    for _ in range(rng.randint(2, 5)):
+        r = rng.choice(routes)
+        tgt = rng.choice(["weight", "weight", "bias"]) if bias else "weight"
+        n = nw if tgt == "weight" else nb
+        if r == "set":
+            t2 = rng.choice([tgt, tgt, "delay"]) if c["delay"] is not None else tgt
+            vals = [abs(v) for v in rvals(rng, nw)] if t2 == "delay" else rvals(rng, n)
+            op = ["set", t2, vals]
+        elif r == "upd":
+            pos = rvals(rng, n) if rng.random() < 0.8 else None
+            neg = rvals(rng, n) if (pos is None or rng.random() < 0.5) else None
+            op = ["upd", tgt, pos, neg]
+        elif r in ("inplace_add", "inplace_copy"):
+            op = [r, tgt, rvals(rng, n)]
+        elif r == "data_index":
+            op = ["data_index", tgt, rng.randrange(n), rval(rng) or 1.5]
+        elif r == "load":
+            op = ["load", rvals(rng, nw), rvals(rng, nb) if bias else None]
+        elif r == "to":
+            op = ["to", rng.choice(["f64", "cpu", "double", "f32"])]
+        else:
+            op = ["none"]
+        rounds.append({"op": op, "x": rx(rng, syn, B * nx)})
+    c["rounds"] = rounds
+    return c
+
+
+def seq_expected(c):
+    """The parameter values each route must leave behind, round by round (plain Python state machine, independent of
+    the Coq model): [(weight, bias, delay, weight_op, remask, bias_op)]; the last three drive the model."""
+    lat = c["conn"] == "lateral"
+    n = prod(c["shape"]) if lat else 0
+
+    def mask(v):
+        return [x * (0.0 if (i // n) == (i % n) else 1.0) for i, x in enumerate(v)] if lat else list(v)
+    nw = seq_dims(c)[0]
+    w = mask(c["Wf"])
+    b = None if c["b"] is None else list(c["b"])
+    d = None if c["delay"] is None else [0.0] * nw
+    out = []
+    for rd in c["rounds"]:
+        op = rd["op"]
+        k = op[0]
+        wop, mk, bop = ["keep"], False, ["keep"]
+        if k == "set":
+            if op[1] == "weight":
+                w = mask(op[2]); wop, mk = ["set", op[2]], lat
+            elif op[1] == "bias":
+                b = list(op[2]); bop = ["set", op[2]]
+            else:
+                d = mask(op[2])
+        elif k == "upd":
+            pos, neg = op[2], op[3]
+            u = [(0.0 if pos is None else pos[i]) - (0.0 if neg is None else neg[i]) for i in range(len(pos or neg))]
+            if op[1] == "weight":
+                w = mask([a + x for a, x in zip(w, u)]); wop = ["add", u]
+            else:
+                b = [a + x for a, x in zip(b, u)]; bop = ["add", u]
+            # Updatable.update re-assigns EVERY updatable parameter through its setter: lateral weight / delay are re-masked
+            if lat:
+                w = mask(w); mk = True
+                d = None if d is None else mask(d)
+        elif k == "inplace_add":
+            if op[1] == "weight":
+                w = [a + x for a, x in zip(w, op[2])]; wop = ["add", op[2]]
+            else:
+                b = [a + x for a, x in zip(b, op[2])]; bop = ["add", op[2]]
+        elif k == "inplace_copy":
+            if op[1] == "weight":
+                w = list(op[2]); wop = ["set", op[2]]
+            else:
+                b = list(op[2]); bop = ["set", op[2]]
+        elif k == "data_index":
+            if op[1] == "weight":
+                w = list(w); w[op[2]] = op[3]; wop = ["set", w]
+            else:
+                b = list(b); b[op[2]] = op[3]; bop = ["set", b]
+        elif k == "load":
+            w = mask(op[1]); wop = ["set", w]         # the twin's constructor already masked its weights
+            if b is not None:
+                b = list(op[2]); bop = ["set", b]
+            d = None if d is None else [0.0] * nw
+        elif k == "to" and op[1] == "f32":
+            w = [f32(v) for v in w]; wop = ["set", w]
+            if b is not None:
+                b = [f32(v) for v in b]; bop = ["set", b]
+            d = None if d is None else [f32(v) for v in d]
+        out.append((list(w), None if b is None else list(b), None if d is None else list(d), wop, mk, bop))
+    return out
+
+
 def gen_cases(rng, n, big=False):
     cases = []
     for i in range(n):
         mal = (i % 8 == 7)
         r = i % 10
-        if r < 2:
+        if r in (1, 3, 7, 9):
+            # sequences (every connection kind; Conv2D twice as often)
+            cases.append(gen_seq(rng, {1: ("dense", "direct")[(i // 10) % 2], 3: "lateral", 7: "conv", 9: "conv"}[r]))
+        elif r < 2:
             cases.append(gen_dense(rng, mal))
         elif r < 4:
             cases.append(gen_direct(rng, mal))
@@ -329,8 +468,38 @@ def uses_delayed_branch(c, im):
     return c["kind"] == "dense" and bool(c["delay"]) and im is not None and im.get("ok") == 1 and len(im["syncur_shape"]) == 3
 
 
+def q_pop(o):
+    if o[0] == "keep":
+        return "PKeep FN"
+    return f"({'PSet' if o[0] == 'set' else 'PAdd'} FN {ql(o[1])})"
+
+
+def q_seq(c):
+    exp = seq_expected(c)
+    rounds = F.coq_list([f"({q_pop(e[3])}, {F.coq_bool(e[4])}, {q_pop(e[5])}, {qn(c['xshape'])}, {ql(eff(c, rd['x']))})"
+                         for rd, e in zip(c["rounds"], exp)])
+    lat = c["conn"] == "lateral"
+    w0 = c["Wf"]
+    if lat:
+        n = prod(c["shape"])
+        w0 = [x * (0.0 if (i // n) == (i % n) else 1.0) for i, x in enumerate(w0)]
+    b0 = qopt(None if c["b"] is None else ql(c["b"]))
+    k = c["conn"]
+    if k == "dense":
+        return f"seq_dense {qz(c['inshape'])} {qz(c['outshape'])} {F.coq_Z(c['B'])} {ql(w0)} {b0} {rounds}"
+    if k == "direct":
+        return f"seq_direct {qz(c['shape'])} {F.coq_Z(c['B'])} {ql(w0)} {b0} {rounds}"
+    if k == "lateral":
+        return f"seq_lateral {qz(c['shape'])} {F.coq_Z(c['B'])} {ql(w0)} {b0} {rounds}"
+    g = "(mkG " + " ".join(F.coq_Z(z) for z in [c["H"], c["W"], c["C"], c["F"], c["k"][0], c["k"][1], c["s"][0], c["s"][1],
+                                                c["p"][0], c["p"][1], c["d"][0], c["d"][1]]) + ")"
+    return f"seq_conv {g} {F.coq_Z(c['B'])} {ql(w0)} {b0} {rounds}"
+
+
 def q_case(c, im=None):
     k = c["kind"]
+    if k == "seq":
+        return q_seq(c)
     if k == "dense":
         t = (f"dense_case {qz(c['inshape'])} {qz(c['outshape'])} {F.coq_Z(c['B'])} {ql2(c['W'])} "
              f"{qopt(None if c['b'] is None else ql(c['b']))} {qn(c['xshape'])} {ql(eff(c, c['x']))} {ql(c['r3'])}")
@@ -395,6 +564,8 @@ def compare(c, im, tm):
     """returns None or a description of the first disagreement between implementation and model"""
     if im.get("ok") == -1:
         return {"harness": im.get("msg")}
+    if c["kind"] == "seq":
+        return compare_seq(c, im, tm)
     if uses_delayed_branch(c, im):
         tm, td = tm
         d = same_floats(im["out"], fl(td))
@@ -481,6 +652,35 @@ def compare(c, im, tm):
     return None
 
 
+def compare_seq(c, im, tm):
+    if im.get("ok") != 1:
+        return {"model": "constructed", "impl": [im.get("stage"), im.get("err"), im.get("msg")]}
+    if len(tm) != len(im["rounds"]):
+        return {"what": "number of rounds"}
+    for j, (st, t) in enumerate(zip(im["rounds"], tm)):
+        w, b, o = t
+        tag = f"round {j} ({c['rounds'][j]['op'][0]})"
+        if st.get("ok") != 1:
+            return {"what": tag + " raised in the implementation", "impl": [st.get("stage"), st.get("msg")]}
+        d = same_floats(st["w"], fl(w))
+        if d is not None:
+            return {"what": tag + " weight", "detail": d}
+        if (st["b"] is None) != (b == []):
+            return {"what": tag + " bias presence"}
+        if b != []:
+            d = same_floats(st["b"], fl(b[0]))
+            if d is not None:
+                return {"what": tag + " bias", "detail": d}
+        if o[0] != 0:
+            return {"what": tag + " forward", "model": o}
+        if st["out_shape"] != o[1][0]:
+            return {"what": tag + " out shape", "impl": st["out_shape"], "model": o[1][0]}
+        d = same_floats(st["out"], fl(o[1][1]))
+        if d is not None:
+            return {"what": tag + " forward", "detail": d}
+    return None
+
+
 # ------------------------------------------------------------------ direct oracle (the property statement, on the implementation)
 def approx(a, b):
     if a is None or b is None:
@@ -497,6 +697,8 @@ def valid(c):
     k = c["kind"]
     if c["B"] <= 0:
         return False
+    if k == "seq":
+        return True          # generated inside the domain only
     if k == "dense":
         ins, outs = c["inshape"], c["outshape"]
         return (all(v > 0 for v in ins + outs) and c["xshape"][0] == c["B"] and prod(c["xshape"][1:]) == prod(ins))
@@ -518,6 +720,8 @@ def oracle(c, im):
         if im.get("ok") == 0 and valid(c):
             return fail(c["kind"], "raised on a valid configuration", stage=im.get("stage"), msg=im.get("msg"))
         return None        # genuine error paths are judged by the correspondence, not by the property
+    if c["kind"] == "seq":
+        return oracle_seq(c, im)
     k = c["kind"]
     if k in ("dense", "direct"):
         ins = c["inshape"] if k == "dense" else c["shape"]
@@ -694,7 +898,79 @@ def oracle(c, im):
     return None
 
 
+def linear_map(c, w, b, x):
+    """the documented map of connection c["conn"] with flat parameters w, b applied to the flat effective input x (pure Python)"""
+    k, B = c["conn"], c["B"]
+    if k in ("dense", "lateral"):
+        I = prod(c["inshape"]) if k == "dense" else prod(c["shape"])
+        O = prod(c["outshape"]) if k == "dense" else I
+        return [math.fsum(x[r * I + i] * w[o * I + i] for i in range(I)) + (b[o] if b else 0.0) for r in range(B) for o in range(O)]
+    if k == "direct":
+        n = prod(c["shape"])
+        return [x[r * n + o] * w[o] + (b[o] if b else 0.0) for r in range(B) for o in range(n)]
+    H, W_, C, Fn = c["H"], c["W"], c["C"], c["F"]
+    (kh, kw), (sh, sw), (ph, pw), (dh, dw) = c["k"], c["s"], c["p"], c["d"]
+    ho, wo = out_size(H, ph, dh, kh, sh), out_size(W_, pw, dw, kw, sw)
+
+    def xat(r_, ch, r, s_):
+        return x[((r_ * C + ch) * H + r) * W_ + s_] if 0 <= r < H and 0 <= s_ < W_ else 0.0
+    return [math.fsum(w[((f * C + ch) * kh + i) * kw + j] * xat(r, ch, oh * sh + i * dh - ph, ow * sw + j * dw - pw)
+                      for ch in range(C) for i in range(kh) for j in range(kw)) + (b[f] if b else 0.0)
+            for r in range(B) for f in range(Fn) for oh in range(ho) for ow in range(wo)]
+
+
+def oracle_seq(c, im):
+    """every step must be the documented linear map of the synapse current WITH THE PARAMETER VALUES THE CONNECTION REPORTS
+    AT THAT MOMENT, and every public re-parameterisation route must leave behind the values it was given"""
+    k = "seq-" + c["conn"]
+    exp = seq_expected(c)
+    lat = c["conn"] == "lateral"
+    n = prod(c["shape"]) if lat else 0
+    for j, (rd, st, e) in enumerate(zip(c["rounds"], im["rounds"], exp)):
+        route = rd["op"][0] + ("" if len(rd["op"]) < 2 or not isinstance(rd["op"][1], str) else ":" + rd["op"][1])
+        if st.get("ok") != 1:
+            return fail(k, "raised on a valid configuration", round=j, route=route, stage=st.get("stage"), msg=st.get("msg"))
+        x = eff(c, rd["x"])
+        if c["conn"] != "conv" and not exact(st["cur"], x):
+            return fail(k, "synapse current is not the flattened (scaled) input", round=j, route=route)
+        want = linear_map(c, st["w"], st["b"], x)
+        if len(want) != len(st["out"]):
+            return fail(k, "output size", round=j, route=route)
+        for i, (a, r) in enumerate(zip(st["out"], want)):
+            if not approx(a, r):
+                return fail(k, "forward is not the documented map of the parameters the connection reports", round=j, route=route,
+                            index=i, got=a, want=r)
+        if c["conn"] == "conv":
+            for i, (a, r) in enumerate(zip(st["out"], st["ref"])):
+                if not approx(a, r):
+                    return fail(k, "forward differs from torch.nn.functional.conv2d with the reported weight", round=j, route=route,
+                                index=i, got=a, ref=r)
+        if st["w_after"] != st["w"]:
+            return fail(k, "forward changed the weight", round=j, route=route)
+        ew, eb, ed = e[0], e[1], e[2]
+        for nm, got, ref in (("weight", st["w"], ew), ("bias", st["b"], eb), ("delay", st["d"], ed)):
+            if (got is None) != (ref is None):
+                return fail(k, nm + " presence", round=j, route=route)
+            if ref is None:
+                continue
+            if len(got) != len(ref) or any(not approx(a, r) for a, r in zip(got, ref)):
+                return fail(k, f"{nm} after a re-parameterisation is not what the route was given", round=j, route=route,
+                            got=got[:8], want=ref[:8])
+        if lat:
+            # masked routes (constructor, setter, updater, twin's constructor): exactly no self-weight; delays only ever
+            # change through masked routes here.  In-place writes bypass the mask by design (the getter hands out the Parameter).
+            op = rd["op"]
+            if j == 0 or op[0] in ("upd", "load") or (op[0] == "set" and op[1] == "weight"):
+                if any(st["w"][i * n + i] != 0.0 for i in range(n)):
+                    return fail(k, "nonzero self-weight", round=j, route=route)
+            if st["d"] is not None and any(st["d"][i * n + i] != 0.0 for i in range(n)):
+                return fail(k, "nonzero self-delay", round=j, route=route)
+    return None
+
+
 def nontrivial(c):
+    if c["kind"] == "seq":
+        return len(c["rounds"]) >= 3
     if c["kind"] == "lateral":
         return len(c["ops"]) >= 3
     if c["kind"] == "conv":
@@ -744,7 +1020,11 @@ def run(ctx):
     return {
         "evaluations": len(cases),
         "distinct_nontrivial": len({json.dumps(c, sort_keys=True) for c in cases if nontrivial(c)}),
-        "rule": "seeded random connection cases: 20% LinearDense, 20% LinearDirect, 20% LinearLateral operation sequences (3-10 ops: "
+        "rule": "40% of the cases are SEQUENCES on one connection (dense / direct / lateral 10% each... conv 20%): forward, then 2-5 rounds of "
+                "[re-parameterise through a public route - weight/bias/delay property setter, Updater application, in-place add_/copy_/"
+                "element write, load_state_dict from a twin, .to(float64|cpu|float32 and back), or nothing - then forward], the oracle "
+                "computing the documented map from the parameter values the connection REPORTS at that moment and checking that each "
+                "route left behind the values it was given; the rest single-step cases: LinearDense, 20% LinearDirect, 20% LinearLateral operation sequences (3-10 ops: "
                 "masked weight/delay assignments incl. broadcast values, bias assignment, updater application with 0-2 positive/negative "
                 "parts, forward), 40% Conv2D geometries (H,W<=7 quick / 9 thorough, kernel<=3, stride<=3, padding<=2, dilation<=3, C,F<=3, "
                 "int or tuple arguments); every 8th case malformed (non-positive sizes, wrong batch / channel count, empty conv output); "
@@ -759,6 +1039,10 @@ def run(ctx):
             "dilation>1": sum(1 for c in convs if max(c["d"]) > 1), "padding>0": sum(1 for c in convs if max(c["p"]) > 0),
             "non_divisible_stride": sum(1 for c in convs if any((sz + 2 * p - d * (k - 1) - 1) % s for sz, p, d, k, s in
                                                                  zip((c["H"], c["W"]), c["p"], c["d"], c["k"], c["s"])))},
+        "sequence_route_distribution": dict(Counter(
+            rd["op"][0] + (":" + rd["op"][1] if len(rd["op"]) > 1 and isinstance(rd["op"][1], str) else "")
+            for c in cases if c["kind"] == "seq" for rd in c["rounds"])),
+        "sequence_conn_distribution": dict(Counter(c["conn"] for c in cases if c["kind"] == "seq")),
         "nonfinite_assignment_probe": probe,
         "samples": [{k: v for k, v in c.items() if k not in ("r3", "r4", "lb")} for c in cases[:2]],
         "mismatches": mismatches, "oracle_failures": oracle_fail,
@@ -774,6 +1058,17 @@ def minimise(case):
     d = bad(case)
     if d is None:
         return case, None
+    if case["kind"] == "seq":
+        rounds = list(case["rounds"])
+        i = 1
+        while i < len(rounds):
+            cand = dict(case, rounds=rounds[:i] + rounds[i + 1:])
+            d2 = bad(cand)
+            if d2 is not None:
+                rounds, d = cand["rounds"], d2
+            else:
+                i += 1
+        case = dict(case, rounds=rounds)
     if case["kind"] == "lateral":
         ops = list(case["ops"])
         i = 0
